@@ -121,6 +121,14 @@ theorem unique_spelling (s s' : Bytes) :
   · rw [← a3 r.1 r.2 h, ← b3 r.1 r.2 h']
   · rw [← a4 r.1 r.2 h, ← b4 r.1 r.2 h']
 
+/-- Remark (not a violation): canonicity is a property of the *key formats*, whose prefixes contain
+    letters and so fix the case of the whole string.  `bech32.Decode`/`Encode` alone are not canonical for
+    an HRP without letters: "2142KK52" and "2142kk52" both decode to ("2", "") — `Decode` cannot tell
+    from the HRP which case the string had, `Encode` always answers in lower case.
+    (`encode_decode` in Proofs/Bech32Codec.lean carries exactly this side condition.) -/
+example : decode [50, 49, 52, 50, 75, 75, 53, 50] = .ok ([50], []) ∧ decode [50, 49, 52, 50, 107, 107, 53, 50] = .ok ([50], []) ∧
+    encode [50] [] = .ok [50, 49, 52, 50, 107, 107, 53, 50] := by decide +kernel
+
 /-! ## rejections
 
   `RejectedWith s P` (Proofs/Bech32Keys.lean): all four parsers and the two string
